@@ -258,6 +258,13 @@ func (g *flowGen) visitLine() *hast.Stmt {
 func (g *flowGen) parts(prefix string) []hast.Part {
 	r := g.r
 	id := g.id()
+	if !g.cfg.NoSets && prefix == "L" && r.Chance(1, 50) {
+		// a line made of inline expressions only, all of which render as nothing: an element with an empty text
+		if r.Bool() {
+			return []hast.Part{hast.Inl(hast.Str(""))}
+		}
+		return []hast.Part{hast.Inl(hast.Str("")), hast.Inl(hast.Bin("+", hast.Str(""), hast.Str("")))}
+	}
 	parts := []hast.Part{hast.Lit(fmt.Sprintf("%s%d", prefix, id))}
 	if g.cfg.NoSets {
 		if r.Chance(1, 3) {
